@@ -816,6 +816,10 @@ func (tic *TermInCommittee) HandleNewView(nvm *interfaces.NewViewMessage) {
 
 		// rewrite this mess
 		latestVoteBlockHash := latestVote.SignedHeader().PreparedProof().PreprepareBlockRef().BlockHash()
+		if !ppMessageContent.SignedHeader().BlockHash().Equal(latestVoteBlockHash) {
+			tic.logger.Info("LHMSG RECEIVED NEW_VIEW IGNORE - NewView.Preprepare.BlockHash differs from the block hash of the latest prepared proof")
+			return
+		}
 		if latestVoteBlockHash != nil {
 			isValidDigest := tic.blockUtils.ValidateBlockCommitment(nvmHeader.BlockHeight(), nvm.Block(), latestVoteBlockHash)
 			if !isValidDigest {
